@@ -273,6 +273,8 @@ class ResolveAnchorIds(Transform):
                 self.document,
                 f"'myst' reference target not found: {target!r}",
                 MystWarnings.XREF_MISSING,
+                # (the reference knows its own source file, e.g. an included one)
+                node=refnode,
                 line=refnode.line,
                 append_to=refnode,
             )
